@@ -9,6 +9,9 @@ import sys
 import traceback
 
 CHECKS = {
+    "C01": ("harness.checks.queryfam", "C01"),
+    "C02": ("harness.checks.queryfam", "C02"),
+    "C12": ("harness.checks.queryfam", "C12"),
     "C06": ("harness.checks.storefam", "C06"),
     "C08": ("harness.checks.storefam", "C08"),
     "C09": ("harness.checks.storefam", "C09"),
